@@ -627,6 +627,9 @@ def machine_factory(tier, Base):
     return PenaltyMachine
 
 
+# libFuzzer executions per shard and @given test of the coverage-guided extra of the thorough tier (vp/fuzz.py)
+FUZZ = 2000
+
 TESTS = [
     Test('formula', run_eval, strategy=lambda tier: eval_cases(1, 1),
          examples={'quick': 12000, 'thorough': 400000}),
